@@ -383,7 +383,7 @@ func ToConfidential(ca *AddressInfo) (string, error) {
 		return "", err
 	}
 
-	if strings.HasPrefix(ca.Address, net.Bech32) {
+	if isBech32(ca.Address, *net) {
 		b32, err := FromBech32(ca.Address)
 		if err != nil {
 			return "", err
@@ -409,18 +409,16 @@ func ToConfidential(ca *AddressInfo) (string, error) {
 
 // NetworkForAddress returns the network based on the prefix of the given address
 func NetworkForAddress(address string) (*network.Network, error) {
-	if strings.HasPrefix(address, network.Liquid.Bech32) ||
-		strings.HasPrefix(address, network.Liquid.Blech32) {
+	hrp := segwitPrefix(address)
+	if hrp == network.Liquid.Bech32 || hrp == network.Liquid.Blech32 {
 		return &network.Liquid, nil
 	}
 
-	if strings.HasPrefix(address, network.Regtest.Bech32) ||
-		strings.HasPrefix(address, network.Regtest.Blech32) {
+	if hrp == network.Regtest.Bech32 || hrp == network.Regtest.Blech32 {
 		return &network.Regtest, nil
 	}
 
-	if strings.HasPrefix(address, network.Testnet.Bech32) ||
-		strings.HasPrefix(address, network.Testnet.Blech32) {
+	if hrp == network.Testnet.Bech32 || hrp == network.Testnet.Blech32 {
 		return &network.Testnet, nil
 	}
 
@@ -598,8 +596,21 @@ func IsConfidential(address string) (bool, error) {
 	return isConfidential, nil
 }
 
+// segwitPrefix returns the human-readable part of a bech32 or blech32 string,
+// i.e. what precedes the last separator '1' (the data part cannot contain
+// one), or "" when there is no separator. A network is recognised by the
+// whole human-readable part, not by how the string begins: "exx1..." or
+// "lqx1..." belong to no known network.
+func segwitPrefix(address string) string {
+	i := strings.LastIndexByte(address, '1')
+	if i < 0 {
+		return ""
+	}
+	return address[:i]
+}
+
 func isBlech32(address string, net network.Network) bool {
-	return strings.HasPrefix(address, net.Blech32)
+	return segwitPrefix(address) == net.Blech32
 }
 
 func decodeBlech32(address string, net network.Network) (int, error) {
@@ -627,7 +638,7 @@ func decodeBlech32(address string, net network.Network) (int, error) {
 }
 
 func isBech32(address string, net network.Network) bool {
-	return strings.HasPrefix(address, net.Bech32)
+	return segwitPrefix(address) == net.Bech32
 }
 
 func decodeBech32(address string, net network.Network) (int, error) {
